@@ -213,13 +213,21 @@ class Operation(ABC):
             backed_grad = self.grad_post_process_fn(backed_grad, var.shape)
             assert backed_grad.shape == var.shape, (backed_grad.shape, var.shape)
             if var._grad is None:
-                backed_grad = (
-                    np.copy(backed_grad)
+                if (
                     # `backed_grad` is view of grad; we want to be able to
                     # augment tmp-grad inplace later
-                    if backed_grad.base is not None or (backed_grad is grad)
-                    else backed_grad
-                )
+                    backed_grad.base is not None
+                    or (backed_grad is grad)
+                    # the stored gradient must have the memory layout of `var`
+                    # so that every view of `var` is also a view of its gradient
+                    or (
+                        backed_grad.ndim > 1
+                        and backed_grad.strides != var.data.strides
+                    )
+                ):
+                    tmp = np.empty_like(var.data, dtype=backed_grad.dtype)
+                    tmp[...] = backed_grad
+                    backed_grad = tmp
                 if backed_grad.dtype != var.dtype:
                     backed_grad = backed_grad.astype(var.dtype, copy=False)
 
